@@ -9,11 +9,11 @@ theorem closed_EstimateManualTxFee : ∃ body m, prog Fn.EstimateManualTxFee = s
   ⟨f_EstimateManualTxFee, checkFuel, rfl, by decide +kernel⟩
 
 set_option maxHeartbeats 100000000 in
-theorem closed_GetAddresses : ∃ body m, prog Fn.GetAddresses = some body ∧ (check prog exports imports closed m [] body).isSome = true :=
+theorem closed_GetAddresses : ∃ body m, prog Fn.GetAddresses_wallet = some body ∧ (check prog exports imports closed m [] body).isSome = true :=
   ⟨f_GetAddresses, checkFuel, rfl, by decide +kernel⟩
 
 set_option maxHeartbeats 100000000 in
-theorem closed_GetBindingHistory : ∃ body m, prog Fn.GetBindingHistory = some body ∧ (check prog exports imports closed m [] body).isSome = true :=
+theorem closed_GetBindingHistory : ∃ body m, prog Fn.GetBindingHistory_wallet = some body ∧ (check prog exports imports closed m [] body).isSome = true :=
   ⟨f_GetBindingHistory, checkFuel, rfl, by decide +kernel⟩
 
 set_option maxHeartbeats 100000000 in
@@ -25,7 +25,7 @@ theorem closed_IsAddressInCurrent : ∃ body m, prog Fn.IsAddressInCurrent = som
   ⟨f_IsAddressInCurrent, checkFuel, rfl, by decide +kernel⟩
 
 set_option maxHeartbeats 100000000 in
-theorem closed_Wallets : ∃ body m, prog Fn.Wallets = some body ∧ (check prog exports imports closed m [] body).isSome = true :=
+theorem closed_Wallets : ∃ body m, prog Fn.Wallets_wallet = some body ∧ (check prog exports imports closed m [] body).isSome = true :=
   ⟨f_Wallets, checkFuel, rfl, by decide +kernel⟩
 
 set_option maxHeartbeats 100000000 in
@@ -56,22 +56,22 @@ set_option maxHeartbeats 100000000 in
 theorem safe_CheckTargetBinding : safe prog exports imports closed checkFuel (.invoke Fn.CheckTargetBinding) = true := by decide +kernel
 
 set_option maxHeartbeats 100000000 in
-theorem safe_CreateBindingTransaction_api : safe prog exports imports closed checkFuel (.invoke Fn.CreateBindingTransaction_api) = true := by decide +kernel
+theorem safe_CreateBindingTransaction_api : safe prog exports imports closed checkFuel (.invoke Fn.CreateBindingTransaction_tx_service) = true := by decide +kernel
 
 set_option maxHeartbeats 100000000 in
 theorem safe_QuitClient : safe prog exports imports closed checkFuel (.invoke Fn.QuitClient) = true := by decide +kernel
 
 set_option maxHeartbeats 100000000 in
-theorem safe_RemoveWallet_api : safe prog exports imports closed checkFuel (.invoke Fn.RemoveWallet_api) = true := by decide +kernel
+theorem safe_RemoveWallet_api : safe prog exports imports closed checkFuel (.invoke Fn.RemoveWallet_wallet_service) = true := by decide +kernel
 
 set_option maxHeartbeats 100000000 in
 theorem safe_TxHistory : safe prog exports imports closed checkFuel (.invoke Fn.TxHistory) = true := by decide +kernel
 
 set_option maxHeartbeats 100000000 in
-theorem safe_UseWallet_api : safe prog exports imports closed checkFuel (.invoke Fn.UseWallet_api) = true := by decide +kernel
+theorem safe_UseWallet_api : safe prog exports imports closed checkFuel (.invoke Fn.UseWallet_wallet_service) = true := by decide +kernel
 
 set_option maxHeartbeats 100000000 in
-theorem safe_Wallets_api : safe prog exports imports closed checkFuel (.invoke Fn.Wallets_api) = true := by decide +kernel
+theorem safe_Wallets_api : safe prog exports imports closed checkFuel (.invoke Fn.Wallets_wallet_service) = true := by decide +kernel
 
 set_option maxHeartbeats 100000000 in
 theorem safe_asyncRemove : safe prog exports imports closed checkFuel (.invoke Fn.asyncRemove) = true := by decide +kernel
